@@ -1,6 +1,7 @@
 import ScrapliModel.Lemmas.Queue
 import ScrapliModel.Lemmas.QueueSolo
 import ScrapliModel.Lemmas.QueueChan
+import ScrapliModel.Lemmas.QueueMulti
 import ScrapliModel.Lemmas.GoSem
 import ScrapliModel.Generated.BodiesQueue
 /-!
@@ -216,6 +217,146 @@ theorem conc_putback_first (l l' : List CEv) (b c : Bytes) (S Q : List Bytes)
 example : consume ([.got [1]] ++ .back [9] :: .got [9] :: [.got [2]]) [[1], [2], [3]] = some [[3]] := by
   decide
 
+/-! ## one producer, any number of consumer goroutines
+
+The library itself can run two consumers: `Close` on a platform-built network driver runs an
+on-close function that sends commands while an operation started earlier is still reading the
+channel. Model: `ScrapliModel/QueueMulti.lean` (`k` consumer program counters; `Multi.Reach recheck k`:
+all schedules; `recheck = true` is the code with the emptiness test under the lock in `Dequeue`). -/
+
+/-- `Multi.MInv` holds in every reachable state of one producer and `k` consumers (any `k`): the write
+lock is held exactly by the goroutine inside a critical section, a reader excludes writers, the
+depth token is in the channel or held by exactly the goroutine recorded in `holder`, the published
+depth is the slice length whenever the lock is free, per-program-counter facts, and the FIFO fact. -/
+theorem multi_invariant {k : Nat} {s : Multi.St} (h : Multi.Reach true k s) : Multi.MInv s :=
+  Multi.minv_reach h
+
+/-- With the re-check under the lock, no consumer ever indexes an empty slice: for every number of
+consumers, every schedule and every call sequence, no consumer goroutine is dead from `q.queue[0]`. -/
+theorem conc_no_panic_multi_consumer {k : Nat} {s : Multi.St} (h : Multi.Reach true k s) (i : Nat) :
+    s.cpcs[i]? ≠ some .panicked := by
+  intro hc
+  have := ((Multi.minv_reach h).cl i _ hc).n
+  simp [Multi.CNum] at this
+
+/-- … and whenever a consumer is at the indexing statement the slice is non-empty. -/
+theorem multi_index_safe {k : Nat} {s : Multi.St} (h : Multi.Reach true k s) (i : Nat)
+    (hc : s.cpcs[i]? = some .dqIdx) : s.queue ≠ [] := by
+  have := ((Multi.minv_reach h).cl i _ hc).n
+  simp only [Multi.CNum] at this
+  intro hq
+  simp [hq] at this
+
+/-- the schedule of the negative witness: one chunk is enqueued; both consumers read depth 1 through
+the token and pass the unlocked test; consumer 0 locks, takes the chunk and unlocks; consumer 1 locks
+and executes `q.queue[0]` on the empty slice. -/
+def panicSchedule : List (Bytes ⊕ (Nat × Call)) :=
+  List.replicate 7 (.inl [1])
+  ++ List.replicate 4 (.inr (0, .dequeue))
+  ++ List.replicate 4 (.inr (1, .dequeue))
+  ++ List.replicate 7 (.inr (0, .dequeue))
+  ++ List.replicate 2 (.inr (1, .dequeue))
+
+/-- Negative witness: WITHOUT the re-check (the code before the repair) two consumers reach the
+panic — the defect C07 observed through `Close` during `GetPrompt`. -/
+theorem two_consumers_panic_without_recheck :
+    ∃ s, Multi.Reach false 2 s ∧ s.cpcs[1]? = some .panicked := by
+  have h : ∃ s, Multi.sched false panicSchedule (Multi.init 2) = some s ∧ s.cpcs[1]? = some .panicked := by
+    decide
+  obtain ⟨s, hs, hp⟩ := h
+  exact ⟨s, Multi.reach_sched false 2 _ _ _ .init hs, hp⟩
+
+/-- The same interleaving on the repaired code (one more step for each re-check): consumer 1 finds the
+slice empty under the lock, returns `nil` and is idle again; the struct stays consistent. -/
+theorem same_interleaving_with_recheck_returns_nil :
+    ∃ s, Multi.sched true
+        (List.replicate 7 (.inl [1]) ++ List.replicate 4 (.inr (0, .dequeue)) ++ List.replicate 4 (.inr (1, .dequeue))
+          ++ List.replicate 8 (.inr (0, .dequeue)) ++ List.replicate 3 (.inr (1, .dequeue)))
+        (Multi.init 2) = some s ∧
+      s.cpcs = [.idle, .idle] ∧ s.queue = [] ∧ s.depth = 0 ∧ s.token = some 0 ∧ s.lock = none := by
+  decide
+
+/-- FIFO with several consumers, part 1 (global order): the slice mutations of ALL consumers, in the
+order in which they happened (each happens under the write lock, so the order is total), read the
+produced stream in order with put-backs first and leave exactly the slice. -/
+theorem multi_fifo {k : Nat} {s : Multi.St} (h : Multi.Reach true k s) :
+    consume (s.clog.map (·.2)) s.produced = some s.queue :=
+  (Multi.minv_reach h).fifo
+
+/-- part 2 (each chunk to exactly one consumer, none lost): every removal is one entry of the log,
+tagged with the one consumer that made it, and as a multiset the chunks removed by all consumers
+plus the chunks still queued are the chunks produced plus the chunks put back. -/
+theorem multi_conservation {k : Nat} {s : Multi.St} (h : Multi.Reach true k s) :
+    (gotsOf (s.clog.map (·.2)) ++ s.queue).Perm (backsOf (s.clog.map (·.2)) ++ s.produced) :=
+  consume_perm _ _ _ (multi_fifo h)
+
+/-- part 3, without put-backs: the chunks removed by all consumers, in removal order, followed by
+the chunks still queued, are exactly the chunks produced. -/
+theorem multi_fifo_no_putback {k : Nat} {s : Multi.St} (h : Multi.Reach true k s)
+    (hb : backsOf (s.clog.map (·.2)) = []) :
+    gotsOf (s.clog.map (·.2)) ++ s.queue = s.produced :=
+  (consume_only_gots _ _ _ hb (multi_fifo h)).symm
+
+/-- part 4 (per consumer): what one consumer obtains is, in its own order, a subsequence of the
+produced stream (it sees the stream in order, minus what the other consumers took). -/
+theorem multi_per_consumer_subsequence {k : Nat} {s : Multi.St} (h : Multi.Reach true k s)
+    (hb : backsOf (s.clog.map (·.2)) = []) (i : Nat) :
+    (Multi.delivered i s.clog).Sublist s.produced := by
+  have h1 := Multi.gotsOf_sublist_filter s.clog i
+  have h2 := multi_fifo_no_putback h hb
+  rw [← h2]
+  exact h1.trans (List.sublist_append_left _ _)
+
+/-- a reachable state with two consumers that each took one chunk, no put-backs -/
+def twoTook : Multi.St :=
+  { queue := [[3]], depth := 1, token := some 1, lock := none, holder := none, pub := 1, ppc := .idle,
+    cpcs := [.idle, .idle], produced := [[1], [2], [3]], clog := [(1, .got [1]), (0, .got [2])] }
+
+theorem twoTook_reach : Multi.Reach true 2 twoTook := by
+  refine Multi.reach_sched true 2
+    (List.replicate 7 (.inl [1]) ++ List.replicate 7 (.inl [2]) ++ List.replicate 7 (.inl [3])
+      ++ List.replicate 12 (.inr (1, .dequeue)) ++ List.replicate 12 (.inr (0, .dequeue)))
+    (Multi.init 2) _ .init ?_
+  decide
+
+example : Multi.Reach true 2 twoTook ∧ backsOf (twoTook.clog.map (·.2)) = [] ∧
+    Multi.delivered 0 twoTook.clog = [[2]] ∧ Multi.delivered 1 twoTook.clog = [[1]] :=
+  ⟨twoTook_reach, by decide, by decide, by decide⟩
+
+/-- Between operations (write lock free) the struct is consistent, whatever the consumers did:
+`depth` and the published depth are the number of chunks held. -/
+theorem multi_quiescent {k : Nat} {s : Multi.St} (h : Multi.Reach true k s) (hl : s.lock = none) :
+    s.depth = s.queue.length ∧ ∀ d, s.token = some d → d = s.queue.length := by
+  have hi := Multi.minv_reach h
+  obtain ⟨h1, h2⟩ := hi.numFree hl
+  refine ⟨h1, fun d hd => ?_⟩
+  rcases hi.tokPub with ht | ht
+  · simp [ht] at hd
+  · rw [ht] at hd
+    cases hd
+    omega
+
+/-- `GetDepth` returns the number of chunks held while it holds the read lock. -/
+theorem multi_depth_exact {k : Nat} {s : Multi.St} (h : Multi.Reach true k s) (i : Nat) (d : Int)
+    (hc : s.cpcs[i]? = some (.gdRUnlock d)) : d = s.queue.length := by
+  have hi := Multi.minv_reach h
+  have hcl := hi.cl i _ hc
+  have hl := hcl.r (by simp [Multi.critR])
+  have hn := hcl.n
+  simp only [Multi.CNum] at hn
+  have := (hi.numFree hl).1
+  omega
+
+/-- NOT PROVED (stated only): with several consumers no goroutine waits forever for the lock or
+the token. Argument: the token holder's next step is always enabled, a goroutine inside a critical
+section waits only for the token, readers never wait once inside. The stress runs with two and
+three consumers sample it under a watchdog. -/
+def MultiNoDeadlock : Prop :=
+  ∀ (k : Nat) (s : Multi.St), Multi.Reach true k s →
+    (s.ppc.busy = true ∨ ∃ (i : Nat) (pc : CPc), s.cpcs[i]? = some pc ∧ pc.busy = true) →
+    (∃ b s', s.ppc.busy = true ∧ Multi.stepP s b = some s') ∨
+    (∃ (i : Nat) (pc : CPc) (call : Call) (s' : Multi.St), s.cpcs[i]? = some pc ∧ pc.busy = true ∧ Multi.stepC true s i call = some s')
+
 /-! ## the queue inside the channel: end to end, byte level
 
 Producer = the `Channel.read` goroutine (`Chan.enqueued`: skip reads of length 0, normalise, enqueue);
@@ -337,8 +478,9 @@ theorem generated_requeue_eq (q : Q) (b : Bytes) :
   cases token <;> cases locked <;>
     simp [Seq.lock, Seq.unlock, Seq.republish, Seq.recvTok, Seq.sendTok, bind, Except.bind, Except.map, pure, Except.pure]
 
-/-- the translated body of `(*Queue).Dequeue` (early `nil` on published depth 0; `q.queue[0]` and
-`q.queue[1:]` with their bounds tests = the `panic` fault) is `Seq.dequeue`, for every state -/
+/-- the translated body of `(*Queue).Dequeue` (early `nil` on published depth 0; `nil` again when the
+slice turns out empty under the lock; `q.queue[0]` and `q.queue[1:]` with their bounds tests) is
+`Seq.dequeue`, for every state -/
 theorem generated_dequeue_eq (q : Q) :
     Gen.Bodies.QueueSeq.dequeue q.queue q.depth q.token q.locked
       = (Seq.dequeue q).map (fun r => (r.1, r.2.queue, r.2.depth, r.2.token, r.2.locked)) := by
@@ -349,8 +491,11 @@ theorem generated_dequeue_eq (q : Q) :
   | some d =>
     by_cases hd : d = 0
     · simp [hd, Seq.recvTok, Seq.sendTok, bind, Except.bind, Except.map, pure, Except.pure]
-    · cases locked <;> cases queue <;>
-        simp [hd, Seq.lock, Seq.unlock, Seq.republish, Seq.recvTok, Seq.sendTok, bind, Except.bind, Except.map,
+    · have hl0 : Go.len ([] : List Bytes) = 0 := rfl
+      have hl1 : ∀ (x : Bytes) (xs : List Bytes), ¬ Go.len (x :: xs) = 0 := by
+        intro x xs h; simp [Go.len] at h; omega
+      cases locked <;> cases queue <;>
+        simp [hd, hl0, hl1, Seq.lock, Seq.unlock, Seq.republish, Seq.recvTok, Seq.sendTok, bind, Except.bind, Except.map,
           pure, Except.pure, Go.idxOK_zero_nil, Go.idxOK_zero_cons, Go.sliceOK_one_cons, Go.at_zero_cons,
           Go.slice_one_cons]
 
